@@ -26,6 +26,9 @@ Families (all members visited):
            in a freshly reloaded ak.xlsread (4 rule sets, every ordered pair of their small title rows).
   mixin  : the declarative spelling (class with the TableReader mixin: ATTR_RULES, STOP_ON, LADDER_FORMAT) for two
            rule sets x their title rows x every blank pattern of <= 2 data rows x the three modes.
+  keep   : for the rule sets with two objects per row (and one single-object rule set) every sheet of the layout
+           family at anchor 0 and of the rows family (generic values) is read a second time through XlsTableReader(...).iter_table by a consumer that keeps all
+           yielded row lists (rows = list(...); zip(*rows)) and inspects them afterwards.
   classes: reader classes with the TableReader mixin: a base class, a subclass overriding ATTR_RULES (other title,
            converter, default; optionally STOP_ON), a subclass of that overriding nothing, an unrelated class; every
            sequence of <= 3 reads over the four classes (84) x 8 sheets (optional columns present / absent,
@@ -69,7 +72,8 @@ REQUIRED_FEATURES = [
     "type:int", "type:str", "type:bool", "type:list", "type:set", "objects:two-per-row", "keys:two",
     "cells:whitespace-blank", "outside-domain", "seq:two-reads", "via:table-reader-mixin",
     "classes:subclass-after-base", "classes:base-after-subclass", "classes:unrelated-class-between",
-    "classes:rules-inherited-unchanged",
+    "classes:rules-inherited-unchanged", "consumer:keeps-yielded-rows",
+    "consumer:keeps-yielded-rows-of-several-objects",
 ]
 
 
@@ -117,9 +121,16 @@ RULESETS["tr_other"] = {"objects": [{"num_id": 1, "attrs": [
 TR_RULESET = {"base": "tr_base", "sub": "tr_sub", "sub2": "tr_sub", "other": "tr_other"}
 _TR = {}          # name -> real class, set by run_classes for the duration of one case
 
+RULESETS["twoobj2"] = {"objects": [{"num_id": 1, "attrs": [_p("id", "Id", "int")]},
+                                   {"num_id": 1, "attrs": [_p("name", "Name", "str")]}]}
 LAYOUT_RULESETS = ["plain3", "optional", "external", "rdict", "rset", "twokey", "lists", "rdictopt", "nokey",
-                   "twoobj"]
-ROWS_RULESETS = ["plain2", "twokey", "rdict", "rset", "nokey", "optional", "rdictopt"]
+                   "twoobj", "twoobj2", "plain2"]
+ROWS_RULESETS = ["plain2", "twokey", "rdict", "rset", "nokey", "optional", "rdictopt", "twoobj2"]
+KEEP_RULESETS = ("twoobj", "twoobj2", "plain2")     # also read through XlsTableReader by a consumer that keeps the rows
+
+
+def _vias(rsname):
+    return ("function", "reader-keep") if rsname in KEEP_RULESETS else ("function",)
 
 _REAL = {}
 
@@ -178,6 +189,12 @@ def real_read(rsname, grid, stop_on, ladder, via="function"):
     if via.startswith("tr:"):
         return [[o] for o in _TR[via[3:]].read_list(ws)]
     real = _real(rsname)
+    if via == "reader-keep":
+        # a consumer of the public multi-object entry point that keeps every yielded row and looks afterwards
+        reader = xr.XlsTableReader(*[xr.XlsObjReadRules(cls, rules) for cls, rules in real])
+        kept = list(reader.iter_table(ws, stop_on=stop_on, ladder_format=ladder))
+        by_object = list(zip(*kept)) if kept else []
+        return [[col[r] for col in by_object] for r in range(len(kept))]
     if via == "mixin":
         # the declarative spelling: a class with the TableReader mixin carrying rules and table options
         cls, rules = real[0]
@@ -354,6 +371,10 @@ def judge(case, acc):
     feats = _features(case, rs, exp, info, grid)
     if case.get("via") == "mixin":
         feats.add("via:table-reader-mixin")
+    if case.get("via") == "reader-keep":
+        feats.add("consumer:keeps-yielded-rows")
+        if len(rs["objects"]) > 1:
+            feats.add("consumer:keeps-yielded-rows-of-several-objects")
     viol = []
     lad = ":ladder" if ladder else ""
     acc.trans()
@@ -511,7 +532,13 @@ def run_case(case, acc, count=True):
         # one report per case: the most basic disagreement (a wrong row count explains wrong values, a wrong
         # value usually comes with a wrong origin ...)
         sig, msg, obs, exp = min(viol, key=lambda v: _prio(v[0]))
-        if case.get("via") == "mixin":
+        if case.get("via") == "reader-keep":
+            from mc import core
+            if not judge(dict(case, via="function"), core.Acc())[3]:
+                # right while streaming, wrong when the yielded rows are kept
+                sig = "kept-rows-differ-from-streamed-rows"
+                msg = "rows = list(XlsTableReader(...).iter_table(ws)) inspected afterwards: " + msg
+        elif case.get("via") == "mixin":
             # does the mixin read the sheet as if the class declared the default options?
             sig = "mixin-ignores-class-options" if _reads_as_default_options(case) else sig + ":mixin"
             msg = "TableReader.read_list with STOP_ON / LADDER_FORMAT declared on the class: " + msg
@@ -588,8 +615,12 @@ def run_shard(shard, tier, seed, acc):
             data = [[generic_value(rs, title, r, c) for c, title in enumerate(t)] for r in range(2)]
             for lead in (0, 1, 2):
                 for stop_on, ladder in MODES:
-                    run_case({"rs": n, "anchor": anchor, "lead": lead, "rows": [t] + data,
-                              "stop_on": stop_on, "ladder": ladder}, acc)
+                    for via in (_vias(n) if anchor == 0 else ("function",)):
+                        case = {"rs": n, "anchor": anchor, "lead": lead, "rows": [t] + data,
+                                "stop_on": stop_on, "ladder": ladder}
+                        if via != "function":
+                            case["via"] = via
+                        run_case(case, acc)
             if acc.expired():
                 return
         return
@@ -609,9 +640,12 @@ def run_shard(shard, tier, seed, acc):
                 for mask in range(k, 1 << ncell, parts):
                     data = [[None if mask >> (r * w + c) & 1 else full[r][c] for c in range(w)] for r in range(nr)]
                     for stop_on, ladder in MODES:
-                        case = {"rs": n, "anchor": 0, "lead": 0, "rows": [t] + data, "stop_on": stop_on,
-                                "ladder": ladder}
-                        run_case(case, acc)
+                        for via in (_vias(n) if not falsy else ("function",)):
+                            case = {"rs": n, "anchor": 0, "lead": 0, "rows": [t] + data, "stop_on": stop_on,
+                                    "ladder": ladder}
+                            if via != "function":
+                                case["via"] = via
+                            run_case(case, acc)
                     if (mask & 1023) == 0 and acc.expired():
                         return
             # the anchored variant of the widest sheets: ladder substitution across a range spanning Z -> AA
